@@ -3,6 +3,8 @@ CONSTANTS
   N = 3
   FlushEach = TRUE
   ReadAhead = FALSE
+  Shape = "bidi"
+  FlushShapes = {"bidi", "cstream"}
   Buffered = TRUE
 INVARIANT TypeOK
 INVARIANT NoHiddenBuffering
